@@ -713,7 +713,7 @@ func NewRootState(fn *ssa.Function, params []*Term, bindings []*Term, mem *State
 // mergeAt merges the end state of path p into the start state of header h.
 func mergeAt(h *ssa.BasicBlock, old *State, p *Path) (*State, bool) {
 	end := p.End
-	hdrTag := fmt.Sprintf("@b%d", h.Index)
+	hdrTag := hdrTagOf(h, end.frames[0].fn)
 	if old == nil {
 		n := end.Clone()
 		n.steps = nil
@@ -730,6 +730,7 @@ func mergeAt(h *ssa.BasicBlock, old *State, p *Path) (*State, bool) {
 		// analysed for the first chain only; the other arrival is reported by the caller as a problem)
 		return n, false
 	}
+	var joins []joinItem
 	for fi := range n.frames {
 		rf, ef := n.frames[fi], end.frames[fi]
 		if rf.fn != ef.fn {
@@ -745,15 +746,38 @@ func mergeAt(h *ssa.BasicBlock, old *State, p *Path) (*State, bool) {
 				continue // not (re)defined on this path: keep the dominating definition
 			}
 			if !Same(ev, v) {
-				sym := &Term{Op: "phi", Aux: k.Name() + hdrTag + ":join", Typ: k.Type(), Src: k}
-				if !Same(v, sym) {
-					rf.env[k] = sym
-					changed = true
-				}
+				joins = append(joins, joinItem{fi: fi, k: k, oldv: v, endv: ev})
 			}
 		}
 		if len(rf.defers) != len(ef.defers) {
 			rf.defers = ef.defers
+		}
+	}
+	// registers that disagree between the arrivals become join symbols; registers that hold the same value on
+	// every arrival (a callee parameter and the caller's argument register) share one symbol, so that the
+	// equality survives the join
+	sort.Slice(joins, func(i, j int) bool {
+		if joins[i].fi != joins[j].fi {
+			return joins[i].fi < joins[j].fi
+		}
+		return regLess(joins[i].k, joins[j].k)
+	})
+	for i := range joins {
+		it := &joins[i]
+		tag := hdrTag
+		if it.fi > 0 && n.frames[it.fi].fn != n.frames[0].fn {
+			tag = "@" + FuncName(n.frames[it.fi].fn) + "/" + strings.TrimPrefix(hdrTag, "@")
+		}
+		it.sym = &Term{Op: "phi", Aux: it.k.Name() + tag + ":join", Typ: it.k.Type(), Src: it.k}
+		for j := 0; j < i; j++ {
+			if Same(joins[j].oldv, it.oldv) && Same(joins[j].endv, it.endv) {
+				it.sym = joins[j].sym
+				break
+			}
+		}
+		if !Same(it.oldv, it.sym) {
+			n.frames[it.fi].env[it.k] = it.sym
+			changed = true
 		}
 	}
 	rf := n.frames[len(n.frames)-1]
@@ -814,6 +838,128 @@ func mergeAt(h *ssa.BasicBlock, old *State, p *Path) (*State, bool) {
 		}
 	}
 	return n, changed
+}
+
+// RType is the canonical term of "the reflect.Type describing the static Go type t".
+func RType(t types.Type) *Term {
+	return &Term{Op: "rtype", Aux: typeKey(t), Typ: t}
+}
+
+// typeKey: the printed type; type parameters are qualified by their declaration position, so that parameters of
+// different generic functions never coincide.
+func typeKey(t types.Type) string {
+	s := shortType(t)
+	seen := map[*types.TypeParam]bool{}
+	var tps []string
+	var walk func(t types.Type, depth int)
+	walk = func(t types.Type, depth int) {
+		if depth > 6 {
+			return
+		}
+		switch x := t.(type) {
+		case *types.TypeParam:
+			if !seen[x] {
+				seen[x] = true
+				tps = append(tps, fmt.Sprintf("%s#%d", x.Obj().Name(), x.Obj().Pos()))
+			}
+		case *types.Pointer:
+			walk(x.Elem(), depth+1)
+		case *types.Slice:
+			walk(x.Elem(), depth+1)
+		case *types.Array:
+			walk(x.Elem(), depth+1)
+		case *types.Chan:
+			walk(x.Elem(), depth+1)
+		case *types.Map:
+			walk(x.Key(), depth+1)
+			walk(x.Elem(), depth+1)
+		case *types.Named:
+			if ta := x.TypeArgs(); ta != nil {
+				for i := 0; i < ta.Len(); i++ {
+					walk(ta.At(i), depth+1)
+				}
+			}
+		case *types.Signature:
+			for i := 0; i < x.Params().Len(); i++ {
+				walk(x.Params().At(i).Type(), depth+1)
+			}
+			for i := 0; i < x.Results().Len(); i++ {
+				walk(x.Results().At(i).Type(), depth+1)
+			}
+		}
+	}
+	walk(t, 0)
+	if len(tps) > 0 {
+		sort.Strings(tps)
+		s += "{" + strings.Join(tps, ",") + "}"
+	}
+	return s
+}
+
+// rtypeOf normalises the ways of naming a static type's descriptor:
+//
+//	reflect.TypeOf(v)      with v of a static non-interface, non-type-parameter type V  ->  rtype[V]
+//	reflect.TypeFor[V]()                                                                   ->  rtype[V]
+//	rtype[*V].Elem()                                                                       ->  rtype[V]
+//
+// (the descriptor of a value depends on its dynamic type only, which for such a V is V itself).
+func rtypeOf(name string, c *ssa.CallCommon, args []*Term) *Term {
+	switch name {
+	case "reflect.TypeOf":
+		if len(c.Args) == 1 {
+			if mi, ok := c.Args[0].(*ssa.MakeInterface); ok {
+				vt := mi.X.Type()
+				if _, isTP := vt.(*types.TypeParam); isTP {
+					return nil
+				}
+				if _, isTP := types.Unalias(vt).(*types.TypeParam); isTP {
+					return nil
+				}
+				if types.IsInterface(vt) {
+					return nil
+				}
+				return RType(vt)
+			}
+		}
+	case "reflect.TypeFor":
+		if f := c.StaticCallee(); f != nil && len(f.TypeArgs()) == 1 {
+			return RType(f.TypeArgs()[0])
+		}
+	case "(reflect.Type).Elem":
+		if len(args) == 1 && args[0].Op == "rtype" {
+			if pt, ok := args[0].Typ.Underlying().(*types.Pointer); ok {
+				return RType(pt.Elem())
+			}
+		}
+	}
+	return nil
+}
+
+type joinItem struct {
+	fi         int
+	k          ssa.Value
+	oldv, endv *Term
+	sym        *Term
+}
+
+func regLess(a, b ssa.Value) bool {
+	an, bn := a.Name(), b.Name()
+	if len(an) != len(bn) {
+		return len(an) < len(bn)
+	}
+	if an != bn {
+		return an < bn
+	}
+	return a.Pos() < b.Pos()
+}
+
+// hdrTagOf names a loop head inside symbols: block index, qualified by the function when the head belongs to
+// an inlined callee (so that registers of different functions never collide).
+func hdrTagOf(h *ssa.BasicBlock, root *ssa.Function) string {
+	if h.Parent() == root {
+		return fmt.Sprintf("@b%d", h.Index)
+	}
+	return fmt.Sprintf("@%s.b%d", FuncName(h.Parent()), h.Index)
 }
 
 func (ex *explorer) problem(format string, args ...any) {
@@ -958,7 +1104,7 @@ func (ex *explorer) run(st *State, blk *ssa.BasicBlock, idx int, prev *ssa.Basic
 						break
 					}
 					if _, ok := f.env[phi]; !ok {
-						f.env[phi] = &Term{Op: "phi", Aux: fmt.Sprintf("%s@b%d:%s", phi.Name(), blk.Index, phi.Comment), Typ: phi.Type(), Src: phi}
+						f.env[phi] = &Term{Op: "phi", Aux: phi.Name() + hdrTagOf(blk, st.frames[0].fn) + ":" + phi.Comment, Typ: phi.Type(), Src: phi}
 					}
 				}
 			}
@@ -1311,6 +1457,10 @@ func (ex *explorer) doCall(st *State, in ssa.Instruction, c *ssa.CallCommon, val
 		return false
 	}
 	if ex.opt.PureCall != nil && name != "" && ex.opt.PureCall(name) {
+		if t := rtypeOf(name, c, args); t != nil {
+			bind(t)
+			return false
+		}
 		bind(&Term{Op: "pure", Aux: name, Args: args})
 		return false
 	}
